@@ -2,6 +2,7 @@
     of the implementation with the model implies the property on the implementation's outcome. *)
 From V.Lib Require Import Base.
 From V.C08 Require Import Sql Model Spec Corr Wf ProofsSql ProofsSel ProofsProp ProofsGreedy.
+From V.Gen Require Import C08SqlPred.
 From Coq Require Import ZifyBool Permutation FinFun.
 Local Open Scope Z_scope.
 
@@ -40,7 +41,7 @@ Proof.
   assert (Ht' : 1 <= p_trusted pol) by lia. assert (Hu' : p_trusted pol <= p_untrusted pol) by lia.
   cbn [run_case] in Hrun. unfold select_notes in Hrun. cbn [prop_case].
   destruct (e_anchor e) as [anchor|].
-  - destruct obs as [ids|x|]; cbn [outcome_eqb] in Hrun; try discriminate; [|reflexivity].
+  - destruct obs as [ids|x|]; cbn [outcome_eqb] in Hrun; try discriminate.
     apply list_eqb_Z_eq in Hrun. subst ids.
     set (l := select_matching db e acct p anchor z pol exclude lf) in *.
     assert (Hs : forall r, In r l -> In r db
@@ -68,6 +69,6 @@ Proof.
       apply existsb_exists in E. destruct E as [y [Hy He]]. apply ref_eqb_eq in He. subst y.
       unfold excl_ids. apply in_map_iff. exists (p, r_id r). split; [reflexivity|].
       apply filter_In. split; [exact Hy | apply pool_eqb_eq; reflexivity].
-  - destruct obs as [ids|x|]; cbn [outcome_eqb] in Hrun; try discriminate; [|reflexivity].
+  - destruct obs as [ids|x|]; cbn [outcome_eqb] in Hrun; try discriminate.
     cbn in Hrun. destruct ids; [reflexivity | discriminate].
 Qed.
